@@ -1,6 +1,7 @@
 use std::collections::{BTreeMap, HashSet};
+use std::ffi::OsStr;
 use std::fs;
-use std::path::{Path, PathBuf};
+use std::path::{Component, Path, PathBuf};
 
 #[cfg(feature = "rayon")]
 use rayon::prelude::*;
@@ -67,6 +68,17 @@ impl LayerContents {
         } else {
             vec![(Name::new_raw(DEFAULT_LAYER_NAME), PathBuf::from(DEFAULT_GLYPHS_DIRNAME))]
         };
+
+        // a layer lives in a directory directly inside the UFO, so each entry
+        // must be a plain directory name: no `..`, no nesting, not absolute
+        for (name, path) in &to_load {
+            if plain_name(path).is_none() {
+                return Err(FontLoadError::InvalidLayerDirectory {
+                    name: name.to_string(),
+                    path: path.clone(),
+                });
+            }
+        }
 
         let mut layers: Vec<_> = to_load
             .into_iter()
@@ -267,6 +279,15 @@ impl Default for LayerContents {
     fn default() -> Self {
         let layers = vec![Layer::default()];
         LayerContents { layers, path_set: HashSet::new() }
+    }
+}
+
+/// Returns the name if `path` is a single plain file or directory name.
+fn plain_name(path: &Path) -> Option<&OsStr> {
+    let mut components = path.components();
+    match (components.next(), components.next()) {
+        (Some(Component::Normal(name)), None) => Some(name),
+        _ => None,
     }
 }
 
